@@ -380,7 +380,11 @@ static void run_std(Case const& c)
         std::string what = std::string("std containers, ") + (accumulate ? "accumulate" : "replace");
         if constexpr (std::is_unsigned<Ch>::value)
         {
-            std::vector<int> vec;
+            // the vector arrives empty, or with stale counts and a size below / equal to / above the channel's bin count (a container
+            // re-used from an image of another depth): the first, non-accumulating fill replaces all of that
+            std::size_t bins = static_cast<std::size_t>(std::numeric_limits<Ch>::max()) + 1;
+            std::size_t presize[5] = {0, 10, bins - 1, bins, bins + 5};
+            std::vector<int> vec(presize[static_cast<std::size_t>(w + 3 * h + c.get("w2")) % 5], 7);
             gil::fill_histogram(gil::const_view(img1), vec);
             gil::fill_histogram(gil::const_view(img2), vec, accumulate);
             VCHECK(vec.size() == static_cast<std::size_t>(std::numeric_limits<Ch>::max()) + 1, what, ": vector size ", vec.size());
